@@ -56,6 +56,7 @@ func init() {
 			ruleWhoMayCall(c, "C03.1", "(*InjectorParam).Ref", "reference counts and channel flags are decided while the graph is built (Build), never while code is emitted", "(*Graph).Build")
 			ruleWhoMayCall(c, "C03.1", "(*InjectorProviderCallStmt).channelsWait", "a wait is emitted only by a provider statement for its own arguments", "(*InjectorProviderCallStmt).Stmt")
 			ruleCallerLaneChoice(c, "C03.7")
+			ruleReadinessByFirstNode(c, "C03.9")
 			coRun(c, "C03.6", coTermination)
 		},
 		explanation: "GS: every producer kind closes exactly the channels the var block declares (one predicate, loops without early exit, hence one close per barrier); the emitted list is all eg.Go chains followed by the main thread, so no main-thread wait can precede a spawn; eg.Wait is appended before the normal return under the same predicate that declares the group; a chain is a single eg.Go(func() error {...; return nil}); a pool is a goroutine exactly when its first provider is Async, at every decision site; every built pool unblocks its dependants. " +
@@ -98,6 +99,7 @@ func init() {
 			ruleStmtOrder(c, "C06.1")
 			ruleLaneIntegrity(c, "C06.12")
 			ruleSameContextPredicate(c, "C06.13")
+			ruleConstQualifiersBound(c, "C06.14")
 			ruleHandlerNeverNil(c, "C06.2")
 			ruleErrorFlow(c, "C06.3", true, false, false)
 			ruleIsWaitTable(c, "C06.5")
